@@ -173,10 +173,40 @@ func runGpromise(c *Ctx) {
 		c.Walk("R6a", &core.Config{Follow: samePkgFollow(d.Pkg.PkgPath)}, core.Entry{Decl: d}, func(p *core.Path) {
 			g := prepare(c, p)
 			lastAssign := map[*types.Var]int{}
+			type tupleSrc struct {
+				call *ast.CallExpr
+				idx  int
+			}
+			fromCall := map[*types.Var]tupleSrc{}
 			for i, ev := range p.Events {
 				if ev.Kind == core.KAssign && !ev.FieldInit {
 					if v := identVar(ev.Lhs, ev.Frame); v != nil && !v.IsField() {
 						lastAssign[v] = i
+						delete(fromCall, v)
+						if call, ok := unparen(ev.Rhs).(*ast.CallExpr); ok && ev.Rhs != nil && ev.RhsIdx >= 0 {
+							fromCall[v] = tupleSrc{call, ev.RhsIdx}
+						}
+					}
+				}
+				// the pair handed back is the pair one await produced: an error that came out of an await
+				// of the sampled promise is returned together with the value of that same await
+				if ev.Kind == core.KReturn && ev.Frame.Parent == nil && len(ev.Results) == 2 {
+					if e := identVar(ev.Results[1], ev.Frame); e != nil {
+						if src, ok := fromCall[e]; ok && src.idx == 1 {
+							if rv := identVar(callRecv(src.call), ev.Frame); rv != nil {
+								if n, isN := rv.Type().(*types.Named); isN && n.Obj().Name() == "PromiseLike" {
+									w := identVar(ev.Results[0], ev.Frame)
+									same := false
+									if w != nil {
+										ws, has := fromCall[w]
+										same = has && ws.call == src.call && ws.idx == 0
+									}
+									a.note("R9", name+"/returns-result-pair-of-await", ev.Pos, !same,
+										"an error produced by awaiting the sampled promise is returned with the value of that same await",
+										"the function returns the error of the promise's await together with "+core.ExprString(ev.Results[0])+", which is not the value that await produced: a result that carries both a value and an error loses its value in the container's awaiters", p)
+								}
+							}
+						}
 					}
 				}
 				if ev.Kind != core.KCall || ev.Callee == nil || ev.Frame.Parent != nil {
@@ -352,6 +382,19 @@ func runGpromise(c *Ctx) {
 					}
 					if (ev.Kind == core.KCall || ev.Kind == core.KEnter) && ev.Callee != nil && ev.Callee.Name() == "SetResult" {
 						completed = true
+						// any completion that may carry an error (the error argument is not nil and not
+						// known nil on this path) happens after the promise was taken out of the Once
+						if ev.Call != nil && len(ev.Call.Args) == 2 && !isNilExpr(ev.Call.Args[1], ev.Frame) {
+							knownNil := false
+							if v := identVar(ev.Call.Args[1], ev.Frame); v != nil {
+								knownNil, _ = implies(g.litsBefore(i, false), eq(c.Role(v), "nil"))
+							}
+							if !knownNil {
+								a.note("R8", lname+"/failure-published-only-after-clear", ev.Pos, !cleared,
+									"a completion that may carry an error happens only after the promise was removed from the Once",
+									"the goroutine completes the promise with "+core.ExprString(ev.Call.Args[1])+" while the promise is still installed in the Once: every later Resolve is handed this failure and the function is never called again", p)
+							}
+						}
 						if errVar != nil && errFromCb {
 							if failed, _ := implies(g.litsBefore(i, false), fnot(eq(c.Role(errVar), "nil"))); failed {
 								a.note("R8", lname+"/clear-before-complete", ev.Pos, !cleared,
@@ -736,6 +779,20 @@ func runGccall(c *Ctx) {
 						}
 					}
 					a.note("R12", name+"/return-sampled-error", ev.Pos, !ok, "the waiting loop returns the exitErr it sampled under the lock", "the waiting loop returns something other than the exitErr sampled in its critical section (for instance a literal nil): an error can be dropped", p)
+					// … and it returns while functions are still running only for a real error: a sampled
+					// context.Canceled is provisional (the workers overwrite it with a later real error)
+					var cv *types.Var
+					for lv, dd := range g.defs[i] {
+						if dd.expr != nil && dd.sec >= 0 && counterVar != nil {
+							if sv := identVar(dd.expr, dd.fr); sv != nil && sv == counterVar {
+								cv = lv
+							}
+						}
+					}
+					if ok && cv != nil {
+						want := for_(eq("0", c.Role(cv)), fand(fnot(eq(c.Role(v), "nil")), fnot(eq("context.Canceled", c.Role(v)))))
+						a.requireGuard("R12", name+"/return-early-only-for-real-error", g, i, false, want, "returning from the waiting loop")
+					}
 				}
 			}
 		}
@@ -902,10 +959,42 @@ func runGccontainer(c *Ctx) {
 		c.Walk("R12", &core.Config{Follow: samePkgFollow(d.Pkg.PkgPath)}, core.Entry{Decl: d}, func(p *core.Path) {
 			g := prepare(c, p)
 			cbIdx := -1
+			lastRhs := map[*types.Var]localDef{}
 			for i, ev := range p.Events {
+				if ev.Kind == core.KAssign && !ev.FieldInit {
+					if v := identVar(ev.Lhs, ev.Frame); v != nil && !v.IsField() {
+						delete(lastRhs, v)
+						if ev.Rhs != nil && ev.RhsIdx < 0 {
+							lastRhs[v] = localDef{expr: ev.Rhs, fr: ev.Frame, sec: g.sec[i]}
+						}
+					}
+				}
 				if ev.Kind == core.KCall && ev.Callee == nil && ev.Builtin == "" && len(pv) > 0 && identVar(ev.Call.Fun, ev.Frame) == pv[0] {
 					cbIdx = i
 					a.note("R12", name+"/callback-in-section", ev.Pos, !holdsLock(ev, lock), "the client callback runs inside the container's critical section", "the client callback runs outside the container's critical section: another writer can interleave between the read and the store", p)
+				}
+				// what SwapValue returns is the cell's value read in the section, or what the callback made of it
+				if ev.Kind == core.KReturn && ev.Frame.Parent == nil && len(ev.Results) == 1 {
+					ok := false
+					var chase func(e ast.Expr, fr *core.Frame, at, depth int) bool
+					chase = func(e ast.Expr, fr *core.Frame, at, depth int) bool {
+						if call, isCall := unparen(e).(*ast.CallExpr); isCall && len(pv) > 0 && identVar(call.Fun, fr) == pv[0] {
+							return true
+						}
+						if fv := fieldVar(e, fr); fv != nil && core.FieldName(fv) == val {
+							return true
+						}
+						if v := identVar(e, fr); v != nil && !v.IsField() && depth < 4 {
+							if dd, has := lastRhs[v]; has && dd.sec >= 0 {
+								return chase(dd.expr, dd.fr, at, depth+1)
+							}
+						}
+						return false
+					}
+					ok = chase(ev.Results[0], ev.Frame, i, 0)
+					a.note("R12", name+"/returns-cell-or-callback-value", ev.Pos, !ok,
+						"SwapValue returns the cell's value as read in its section, or what the callback made of it",
+						"a path of SwapValue returns "+core.ExprString(ev.Results[0])+" that was neither read from the cell in the critical section nor produced by the callback (for instance the zero value when the callback is nil)", p)
 				}
 				if assignsField(ev, val, "") && cbIdx >= 0 {
 					a.note("R12", name+"/read-modify-write-one-section", ev.Pos, !(g.sec[cbIdx] == g.sec[i] && g.sec[i] >= 0),
